@@ -81,18 +81,31 @@ func (c *CmdShell) Output() io.ReadCloser { return c.outr }
 // Go runs c's [exec.Cmd].  ctx is not used; use [exec.CommandContext] or cause
 // an EOF on the [io.Reader] set via c.SetInPipe to stop Go.
 func (c *CmdShell) Go(ctx context.Context) error {
-	/* Start proxying output. */
+	/* Start the process going. */
+	if err := c.cmd.Start(); nil != err {
+		c.outw.CloseWithError(err)
+		return err
+	}
+
+	/* Proxy output until both of the child's streams are drained.  This
+	must finish before we call Wait, as Wait closes the pipes and would
+	discard whatever the child wrote but we haven't yet read. */
 	var peg errgroup.Group
 	peg.Go(func() error { _, err := io.Copy(c.outw, c.sout); return err })
 	peg.Go(func() error { _, err := io.Copy(c.outw, c.serr); return err })
+	err := peg.Wait()
 
-	/* Start the process going. */
-	var eg errgroup.Group
-	eg.Go(func() error { return c.cmd.Run() })
-	eg.Go(func() error { return c.outw.CloseWithError(peg.Wait()) })
+	/* Output's drained (or unreadable); reap the child. */
+	werr := c.cmd.Wait()
 
-	/* Wait until everything finishes. */
-	return eg.Wait()
+	/* Tell the reader we're done.  As before, it sees EOF unless the
+	proxying itself failed. */
+	c.outw.CloseWithError(err)
+
+	if nil != err {
+		return err
+	}
+	return werr
 }
 
 // String calls c's [exec.Cmd.String].
